@@ -204,7 +204,10 @@ class Simplifier(pysmt.walkers.DagWalker):
         sl = args[0]
         sr = args[1]
 
-        if sl.is_constant() and sr.is_constant():
+        if sl.is_constant() and sr.is_constant() and \
+           not sl.is_array_value() and not sr.is_array_value():
+            # Array values are excluded: their constant_value() is the
+            # index type, not the content of the array.
             l = sl.constant_value()
             r = sr.constant_value()
             return self.manager.Bool(l == r)
